@@ -57,10 +57,26 @@ def no_wrap_guard(conds, ptr, n):
     return False
 
 
+def product_checked_by_division(conds, n):
+    """the classic exactness test of a modular product: (count*k)/k == count holds iff count*k did not wrap"""
+    pp = product_parts(n)
+    if not pp:
+        return False
+    k, cnt = pp
+    for c in conds:
+        if c[0] == "cmp" and c[1] == "==":
+            for a, b in ((c[2], c[3]), (c[3], c[2])):
+                if b == cnt and isinstance(a, tuple) and a[:2] == ("bin", "/") and a[2] == n and a[3] == C(k):
+                    return True
+    return False
+
+
 def extent_bounded(conds, n, ptr=None):
     """R-C10-extent: the byte extent cannot wrap: bounded by the sandbox size, a constant, or a strlen of live memory"""
     if is_const(n):
         return True, "constant"
+    if ptr is not None and no_wrap_guard(conds, ptr, n) and product_checked_by_division(conds, n):
+        return True, "count*size verified by division and start+n-1 >= start checked"
     if ptr is not None and no_wrap_guard(conds, ptr, n):
         pp = product_parts(n)
         if pp is None or pp[0] == 1:
